@@ -71,7 +71,7 @@ type World struct {
 }
 
 // ScratchRoot is where filesystem scenarios live; removed by Close.
-var ScratchRoot = "/verif/.scratch"
+var ScratchRoot = core.VerifDir + "/.scratch"
 
 func New(caseID string, kind StoreKind, v *gen.Vocab, tok refsem.Tokenizer) *World {
 	w := &World{Case: caseID, Kind: kind, Vocab: v, Tok: tok, Rows: map[string]*RowRec{}}
